@@ -6,7 +6,7 @@ using namespace vh;
 #ifndef VH_STEPS
 #define VH_STEPS 1
 #endif
-#define N_OPS 39
+#define N_OPS 43
 
 static void mutate(World &w, uint32_t op) {
     double x = nixsym_f64("x");          // symbolic payload where a value is needed
@@ -50,6 +50,10 @@ static void mutate(World &w, uint32_t op) {
     case 35: { DataArray h2 = w.grp.getDataArray((size_t)0); h2.dimensionCount(); w.da1.dimensionCount(); w.da1.deleteDimensions(); h2.appendSetDimension({"a", "b"}); w.da1.appendSetDimension(); break; }
     case 36: { Source h2 = w.b.getSource("src"); h2.sourceCount(); w.src.sourceCount(); w.src.deleteSource("child"); w.src.deleteSource("child2"); h2.createSource("c3", "t"); break; }
     case 37: { Section h2 = w.f.getSection("sec"); h2.propertyCount(); w.sec.propertyCount(); w.sec.deleteProperty("temperature"); h2.createProperty("q", Variant((int32_t)5)); h2.deleteSection("child"); w.sec.createSection("c4", "t"); break; }
+    case 39: w.tag.referenceCount(); w.tag.references(std::vector<DataArray>{}); break;                  // bulk setters with empty / shorter lists
+    case 40: w.mtag.referenceCount(); w.mtag.references(std::vector<DataArray>{}); w.mtag.sources(std::vector<Source>{}); break;
+    case 41: w.da1.sourceCount(); w.da1.sources(std::vector<Source>{}); w.tag.sources(std::vector<Source>{w.src}); break;
+    case 42: w.grp.dataArrayCount(); w.grp.dataArrays(std::vector<DataArray>{}); w.grp.tags(std::vector<Tag>{}); w.grp.multiTags(std::vector<MultiTag>{}); break;
     case 38: { Tag h2 = w.grp.getTag((size_t)0); h2.featureCount(); h2.referenceCount(); w.tag.deleteFeature(w.tfeat); w.tag.removeReference(w.da1); h2.createFeature(w.da2, LinkType::Indexed); h2.addReference(w.da2); break; }
     }
 }
